@@ -1,6 +1,6 @@
 (** C13 for the registered messages: no decoder ever crashes or runs out of fuel, encoders return a
-    value or an error, allocation bounds of the flat entry points, and the two refutations (unchecked
-    member count of readClusterView; quadratic copying of nested messages). *)
+    value or an error, and every decoder allocates at most 10 bytes per input byte plus one capped map
+    (2 MiB): [linb 10 K_map]. *)
 From Coq Require Import List NArith ZArith Lia Bool.
 From Coq Require Import ZifyN ZifyNat ZifyBool.
 From stdpp Require Import gmap.
@@ -110,11 +110,17 @@ Proof.
     (eapply IH; [|exact H]; lia).
 Qed.
 
+Lemma safe_d_members m : safe (d_members m).
+Proof.
+  unfold d_members.
+  apply safe_bind; [intros bs e; unfold drun, d_member_guard; destruct (_ <? _); cbn; [intros [= <-]; apply not_bad_ME|discriminate]|intros _].
+  apply safe_bind; [safe_tac|intros _]. intros bs e. apply safe_members. lia.
+Qed.
 Lemma safe_view : safe dec_view.
 Proof.
   unfold dec_view. apply safe_bind; [safe_tac|intros n]. destruct (n =? 0); [safe_tac|].
-  do 5 (apply safe_bind; [safe_tac|intros ?]).
-  apply safe_bind; [intros bs e; apply safe_members; lia|intros ms].
+  do 4 (apply safe_bind; [safe_tac|intros ?]).
+  apply safe_bind; [apply safe_d_members|intros ms].
   do 3 (apply safe_bind; [safe_tac|intros ?]).
   apply safe_bind; [apply safe_vv|intros ?]. safe_tac.
 Qed.
@@ -124,15 +130,129 @@ Proof. unfold dec_JoinRequest. apply safe_bind; [apply safe_ns_opt|intros ?]. sa
 Lemma safe_GetViewResponse : safe dec_GetViewResponse.
 Proof. unfold dec_GetViewResponse. apply safe_bind; [apply safe_view|intros ?]. safe_tac. Qed.
 
-(** the member count is not capped: 28 bytes of input make readClusterView pre-allocate a map for
-    2^32-1 members *)
-Definition view_memlen_witness : bytes :=
-  put_u32 1 ++ put_lp4 [] ++ put_i64 0 ++ put_i64 0 ++ put_u32 4294967295.
-Lemma view_alloc_witness :
-  length view_memlen_witness = 28%nat /\
-  fst (dec_view view_memlen_witness) = 24 * 4294967295 /\
-  snd (dec_view view_memlen_witness) = MErr (ME EEOF).
-Proof. vm_compute. repeat split. Qed.
+(** * allocation, proportional: maps, version vector, members, view *)
+Lemma consumes_dec_pairs n : forall acc, consumes (8 * N.of_nat n) (dec_pairs n acc).
+Proof.
+  induction n as [|n IH]; intros acc bs x bs' H; [cbn in H; injection H as _ <-; lia|].
+  cbn [dec_pairs] in H.
+  apply drun_bind_inv in H as [(e & _ & H)|(k & b1 & H1 & H)]; [discriminate|].
+  apply drun_bind_inv in H as [(e & _ & H)|(v & b2 & H2 & H)]; [discriminate|].
+  apply IH in H.
+  unfold drun, d_str in H1, H2.
+  destruct (rd_lp4 bs) as [[s1 t1]|] eqn:E1; cbn in H1; [|discriminate]. injection H1 as _ <-.
+  destruct (rd_lp4 t1) as [[s2 t2]|] eqn:E2; cbn in H2; [|discriminate]. injection H2 as _ <-.
+  apply rd_lp4_len in E1, E2. lia.
+Qed.
+
+Lemma linb_mapss : linb 5 K_map dec_mapss.
+Proof.
+  unfold dec_mapss. apply linb_bind; [apply linb_of_addb0; [lia|apply addb_u32]|intros n].
+  destruct (n =? 0); [apply linb_dret|].
+  destruct (N.ltb_spec max_map_entries n); [apply linb_dfail|].
+  intros bs. unfold dbind, dalloc.
+  pose proof (addb_dec_pairs (N.to_nat n) ∅ bs) as Ha.
+  pose proof (consumes_dec_pairs (N.to_nat n) ∅ bs) as Hc. unfold drun in Hc.
+  destruct (dec_pairs (N.to_nat n) ∅ bs) as [a [[m t]|e]]; cbn [dret].
+  - specialize (Hc m t eq_refl). unfold slot_ss. rewrite N2Nat.id in Hc. lia.
+  - unfold K_map, slot_ss, max_map_entries in *. lia.
+Qed.
+
+Ltac linb_tac :=
+  repeat first
+    [ apply linb_dret | apply linb_dfail | apply linb_mapss
+    | (apply linb_of_addb0; [lia|first [apply addb_u8|apply addb_u16|apply addb_u32|apply addb_u64|apply addb_i32|apply addb_i64|apply addb_bool|apply addb_str|apply addb_sub]])
+    | (apply linb_bind; [|intros ?]) ].
+
+Lemma linb_ns_body : linb 5 K_map dec_ns_body.
+Proof. unfold dec_ns_body. linb_tac. Qed.
+Lemma linb_ns_opt : linb 5 K_map dec_ns_opt.
+Proof.
+  unfold dec_ns_opt. apply linb_bind; [linb_tac|intros n]. destruct (n =? 0); [apply linb_dret|].
+  apply linb_bind; [apply linb_ns_body|intros ?]. apply linb_dret.
+Qed.
+
+Lemma addb_vv_entries n : forall acc, addb 0 (d_vv_entries n acc).
+Proof.
+  induction n as [|n IH]; intros acc; cbn [d_vv_entries]; [apply addb_dret|].
+  change 0 with (0 + (0 + 0)). apply addb_bind; [apply addb_str|intros k].
+  destruct (valid_addr k); [|eapply addb_weaken; [|apply addb_dfail]; lia].
+  apply addb_bind; [apply addb_u64|intros c]. destruct (max_counter <? c); [apply addb_dfail|apply IH].
+Qed.
+Lemma consumes_vv_entries n : forall acc, consumes (13 * N.of_nat n) (d_vv_entries n acc).
+Proof.
+  induction n as [|n IH]; intros acc bs x bs' H; [cbn in H; injection H as _ <-; lia|].
+  cbn [d_vv_entries] in H.
+  apply drun_bind_inv in H as [(e & _ & H)|(k & b1 & H1 & H)]; [discriminate|].
+  destruct (valid_addr k) eqn:Ev; [|discriminate].
+  apply drun_bind_inv in H as [(e & _ & H)|(c & b2 & H2 & H)]; [discriminate|].
+  destruct (max_counter <? c); [discriminate|]. apply IH in H.
+  unfold drun, d_str in H1. destruct (rd_lp4 bs) as [[s1 t1]|] eqn:E1; cbn in H1; [|discriminate]. injection H1 as -> <-.
+  unfold drun, d_u64, dlift, rd_u64 in H2. destruct (rd_uint 8 t1) as [[c' t2]|] eqn:E2; cbn in H2; [|discriminate]. injection H2 as _ <-.
+  apply rd_lp4_len in E1. apply rd_uint_len in E2.
+  unfold valid_addr in Ev. apply andb_true_iff in Ev as [Ev _]. apply negb_true_iff, N.eqb_neq in Ev. lia.
+Qed.
+Lemma linb_vv : linb 5 K_map d_vv.
+Proof.
+  unfold d_vv. apply linb_bind; [apply linb_of_addb0; [lia|apply addb_u32]|intros n].
+  destruct (N.ltb_spec max_entries n); [apply linb_dfail|].
+  intros bs. unfold dbind, dalloc.
+  pose proof (addb_vv_entries (N.to_nat n) ∅ bs) as Ha.
+  pose proof (consumes_vv_entries (N.to_nat n) ∅ bs) as Hc. unfold drun in Hc.
+  destruct (d_vv_entries (N.to_nat n) ∅ bs) as [a [[m t]|e]].
+  - specialize (Hc m t eq_refl). unfold slot_member. rewrite N2Nat.id in Hc. lia.
+  - unfold K_map, slot_ss, slot_member, max_map_entries, max_entries in *. lia.
+Qed.
+
+(** the member loop: 5 bytes allocated per byte consumed, and at least five bytes consumed per member *)
+Lemma members_bounds : forall fuel cnt acc bs,
+  match dec_members fuel cnt acc bs with
+  | (a, MOk (_, bs')) => (length bs' <= length bs)%nat /\ a + 5 * N.of_nat (length bs') <= 5 * N.of_nat (length bs) /\
+                         (N.of_nat fuel >= cnt -> 5 * cnt + N.of_nat (length bs') <= N.of_nat (length bs))
+  | (a, MErr _) => a <= 5 * N.of_nat (length bs) + K_map
+  end.
+Proof.
+  induction fuel as [|f IH]; intros cnt acc bs; cbn [dec_members].
+  - destruct (N.eqb_spec cnt 0); unfold dret, dfail; lia.
+  - destruct (N.eqb_spec cnt 0); [unfold dret; lia|].
+    unfold dbind at 1, d_str. destruct (rd_lp4 bs) as [[id b1]|] eqn:E1; [apply rd_lp4_len in E1|cbn; lia].
+    unfold dbind at 1, d_u8, dlift, rd_u8. destruct (rd_uint 1 b1) as [[has b2]|] eqn:E2; cbn [bind mlift]; [apply rd_uint_len in E2|lia].
+    destruct (has =? 0).
+    + specialize (IH (cnt - 1) acc b2). destruct (dec_members f (cnt - 1) acc b2) as [a3 [[m t]|e]]; [|lia].
+      destruct IH as (I1 & I2 & I3). split; [lia|]. split; [lia|]. intros Hf. lia.
+    + unfold dbind at 1. pose proof (linb_ns_body b2) as H3. destruct (dec_ns_body b2) as [a3 [[st b3]|e]]; [|lia].
+      specialize (IH (cnt - 1) (<[id:=Some st]> acc) b3).
+      destruct (dec_members f (cnt - 1) (<[id:=Some st]> acc) b3) as [a4 [[m t]|e]]; [|lia].
+      destruct IH as (I1 & I2 & I3). split; [lia|]. split; [lia|]. intros Hf. lia.
+Qed.
+Lemma linb_d_members m : linb 10 K_map (d_members m).
+Proof.
+  intros bs. unfold d_members, dbind, d_member_guard, dalloc.
+  destruct (N.ltb_spec (N.of_nat (length bs) / 5) m); [lia|].
+  pose proof (members_bounds (S (length bs)) m ∅ bs) as Hm.
+  assert (H5 : 5 * m <= N.of_nat (length bs)).
+  { pose proof (N.mul_div_le (N.of_nat (length bs)) 5 ltac:(lia)). nia. }
+  destruct (dec_members (S (length bs)) m ∅ bs) as [a [[ms t]|e]]; unfold slot_member.
+  - destruct Hm as (M1 & M2 & M3). specialize (M3 ltac:(lia)). lia.
+  - lia.
+Qed.
+
+Ltac linb10 :=
+  repeat first
+    [ apply linb_dret | apply linb_dfail
+    | (eapply linb_mono; [| |apply linb_mapss]; [lia|lia])
+    | (apply linb_of_addb0; [lia|first [apply addb_u8|apply addb_u16|apply addb_u32|apply addb_u64|apply addb_i32|apply addb_i64|apply addb_bool|apply addb_str|apply addb_sub]])
+    | (apply linb_bind; [|intros ?]) ].
+
+Lemma linb_view : linb 10 K_map dec_view.
+Proof.
+  unfold dec_view. apply linb_bind; [linb10|intros n]. destruct (n =? 0); [apply linb_dret|].
+  do 4 (apply linb_bind; [linb10|intros ?]).
+  apply linb_bind; [apply linb_d_members|intros ms].
+  do 3 (apply linb_bind; [linb10|intros ?]).
+  apply linb_bind; [eapply linb_mono; [| |apply linb_vv]; lia|intros ?]. linb10.
+Qed.
+Lemma linb10_ns_opt : linb 10 K_map dec_ns_opt.
+Proof. eapply linb_mono; [| |apply linb_ns_opt]; lia. Qed.
 
 Section Universe.
   Variable U : Type.
@@ -171,9 +291,9 @@ Section Universe.
     forall bs e, (length bs <= f)%nat -> drun (read_message_with (dec_body f)) bs = MErr e -> ~ bad e.
   Proof.
     intros IH bs e Hl H. unfold Msgs.read_message_with in H.
-    apply drun_bind_inv in H as [(e' & H1 & [= ->])|(data & bs1 & H1 & H)]; [eapply safe_str; exact H1|].
+    apply drun_bind_inv in H as [(e' & H1 & [= ->])|(data & bs1 & H1 & H)]; [eapply (safe_dlift rd_lp4); exact H1|].
     assert (Ld : (length data < f)%nat).
-    { unfold drun, d_str in H1. destruct (rd_lp4 bs) as [[s t]|] eqn:E; cbn in H1; [|discriminate].
+    { unfold drun, d_sub, dlift in H1. destruct (rd_lp4 bs) as [[s t]|] eqn:E; cbn in H1; [|discriminate].
       injection H1 as -> ->. apply rd_lp4_len in E. lia. }
     apply drun_bind_inv in H as [(e' & H2 & [= ->])|(name & bs2 & H2 & H)]; [eapply safe_str; exact H2|].
     destruct (kind_of_name name) as [k|].
@@ -306,4 +426,63 @@ Section Universe.
     - eapply addb_weaken; cycle 1. { unfold dec_ForceMemberDown. addb_tac. } vm_compute; discriminate.
     - eapply addb_weaken; cycle 1. { unfold dec_TriggerViewBroadcast. addb_tac. } vm_compute; discriminate.
   Qed.
+
 End Universe.
+
+Section UniverseAlloc.
+  Variable U : Type.
+  Variable has_codec : bool.
+  Variable cdec : bytes -> mres U.
+  Variable qerr : Z -> option bytes.
+  Variable newref : bytes -> bytes -> mres (bytes * bytes).
+  Notation msg := (msg U).
+  Notation dec_body := (dec_body U has_codec cdec qerr newref).
+  Notation read_message_with := (read_message_with U has_codec cdec).
+  Notation d_ref := (d_ref newref).
+
+  (** ** allocation of every decoder: at most 10 bytes per input byte plus one capped map *)
+  Lemma linb_ref : linb 10 K_map d_ref.
+  Proof. apply linb_of_addb0; [lia|apply (addb_ref newref)]. Qed.
+
+  Lemma rm_linb (body : kind -> dec msg) :
+    (forall k, linb 10 K_map (body k)) -> linb 10 K_map (read_message_with body).
+  Proof.
+    intros IH bs. unfold Msgs.read_message_with.
+    unfold dbind at 1, d_sub, dlift. destruct (rd_lp4 bs) as [[data b1]|] eqn:E1; cbn [mlift]; [apply rd_lp4_len in E1|lia].
+    unfold dbind, d_str. destruct (rd_lp4 b1) as [[name b2]|] eqn:E2; [apply rd_lp4_len in E2|lia].
+    destruct (kind_of_name name) as [k|].
+    - specialize (IH k data). destruct (body k data) as [a [[m t]|e]]; lia.
+    - destruct has_codec; [destruct (cdec data)|]; lia.
+  Qed.
+
+  Theorem dec_body_linb : forall fuel k, linb 10 K_map (dec_body fuel k).
+  Proof.
+    induction fuel as [|f IH]; intros k; [apply linb_dfail|].
+    pose proof (rm_linb (dec_body f) IH) as Hrm.
+    destruct k; cbn [Msgs.dec_body]; try apply linb_dret.
+    - unfold dec_OnKill. apply linb_bind; [apply linb_bind; [apply linb_ref|intros ?]; linb10|intros ?]. linb10.
+    - unfold dec_OnKilled. apply linb_bind; [apply linb_ref|intros ?]. linb10.
+    - apply linb_bind; [exact Hrm|intros ?]. linb10.
+    - unfold dec_Pong. linb10.
+    - unfold dec_Error. linb10.
+    - unfold dec_Command. linb10.
+    - unfold dec_Ping. linb10.
+    - unfold dec_PongMessage. linb10.
+    - apply linb_bind; [exact Hrm|intros ?]. linb10.
+    - unfold dec_JoinRequest. apply linb_bind; [apply linb_bind; [apply linb10_ns_opt|intros ?]; linb10|intros ?]. linb10.
+    - unfold dec_ViewMsg. apply linb_bind; [apply linb_view|intros ?]. linb10.
+    - unfold dec_ViewMsg. apply linb_bind; [apply linb_view|intros ?]. linb10.
+    - unfold dec_GetViewResponse. apply linb_bind; [apply linb_bind; [apply linb_view|intros ?]; linb10|intros ?]. linb10.
+    - unfold dec_LeaveBroadcastRound. linb10.
+    - unfold dec_JoinRetryTick. linb10.
+    - unfold dec_ForceMemberDown. linb10.
+    - unfold dec_TriggerViewBroadcast. linb10.
+    - do 2 (apply linb_bind; [linb10|intros ?]). apply linb_bind; [exact Hrm|intros ?]. linb10.
+  Qed.
+
+  Theorem deserialize_linb k : linb 10 K_map (deserialize_remoting U has_codec cdec qerr newref k).
+  Proof. intros bs. unfold deserialize_remoting. apply dec_body_linb. Qed.
+  Theorem read_message_linb : linb 10 K_map (read_message U has_codec cdec qerr newref).
+  Proof. intros bs. unfold read_message. apply rm_linb. apply dec_body_linb. Qed.
+End UniverseAlloc.
+
